@@ -8,6 +8,13 @@ R03.2 the array-backed and the annotatable alignment classes expose the same
       operations with the same parameters and defaults
 R03.3 state that records the history (reverse complemented; terminal gaps unknown)
       is carried by every functional update that rebuilds the object
+
+Added in build round 2 (see DESIGN.md section 3, round-2 table):
+R03.4 an Aligned is a (gap map, ungapped sequence) pair: in every binary/indexing method of Aligned, whenever the map of the result is computed from the ...
+R03.5 rows of two collections are associated by name, never by position: no zip(...) in a collection method pairs rows/names of self with rows/names of the ...
+R03.6 the array-backed and the annotatable alignment class mean the same thing by 'gap' in their sibling implementations: both test the single gap ...
+R03.7 the two branches of an option give the same callee the same kind of value: where both branches of one `if` call the same function with the same ...
+R03.8 slicing a gap map clamps like slicing a string: in IndelMap.__getitem__[slice] every arithmetic use of the slice's stop (a length `stop - start`, an ...
 """
 
 from __future__ import annotations
